@@ -5,7 +5,7 @@ prescribeQ < realize(Position) < projectQ < prescribeU < realize(Velocity) <
 projectU on every path to an accepting return; writes to the state reset the
 automaton.  Helper summaries are verified with the same automaton."""
 from ..facts import extract, units_matching, Program, AnalysisBroken, sx_find, sx_enums, sx_str
-from ..match import (ev_write, is_call, call_args, call_obj, field_of, var_of, guard_blocks, lvalue_root, branch_edges)
+from ..match import (known_edges, only_via, ev_write, is_call, call_args, call_obj, field_of, var_of, guard_blocks, lvalue_root, branch_edges)
 from .c18 import _is_lit
 
 IR = "SimTK::IntegratorRep"
@@ -326,9 +326,10 @@ def interpolation(chk, P, summ):
             # `interp = advanced` also writes the state: treat assignment to the state var as a write
             noproj_region = set()
             if short == "createInterpolatedState":
-                for g in guard_blocks(f, lambda c: c[0] == "op" and c[1] == "==" and (field_of(c[2]) or "").endswith("::userProjectInterpolatedStates") and _is_lit(c[3], "0"), 0):
-                    dom = f.dominators()
-                    noproj_region |= {b for b in dom if g in dom[b]}
+                isf = lambda x: (field_of(x) or "").endswith("::userProjectInterpolatedStates")
+                ke = known_edges(f, lambda c: isinstance(c, list) and ((c[0] == "op" and c[1] == "==" and isf(c[2]) and _is_lit(c[3], "0")) or (c[0] == "un" and c[1] == "!" and isf(c[2]))),
+                                 lambda c: isinstance(c, list) and ((c[0] == "op" and c[1] == "!=" and isf(c[2]) and _is_lit(c[3], "0")) or isf(c)))
+                noproj_region = {b for b in f.blocks if only_via(f, b, ke)}     # `if (x == 0) A` and `if (x != 0) B else A` alike
             bad_full = run_automaton(f, pipe, PIPE, 0, lambda b, e: b not in noproj_region)
             bad_np = run_automaton(f, pipe, NOPROJ, 0, lambda b, e: b in noproj_region)
             chk.judge(not bad_full, "ORDER", f.name + ":projected-paths", f.loc,
